@@ -67,6 +67,11 @@ theorem lt_of_le_of_lt {x y z : α} (h1 : cmp x y ≠ .gt) (h2 : cmp y z = .lt) 
 
 end Lawful
 
+/-- comparing through a key function keeps the laws -/
+theorem Lawful.pullback {α β : Type} {cmp : β → β → Ordering} (L : Lawful cmp) (f : α → β) :
+    Lawful (fun x y => cmp (f x) (f y)) :=
+  ⟨fun x y => L.swap (f x) (f y), fun x y z => L.trans (f x) (f y) (f z)⟩
+
 /-! ### base comparisons -/
 
 /-- unfold the if-cascades of the machine comparisons, split, finish by arithmetic -/
